@@ -171,16 +171,17 @@ func writePath(root Value, path []Step, nv Value) Value {
 // ---------------------------------------------------------------- obligations
 
 type Obligation struct {
-	Name    string
-	Kind    string
-	Props   []string
-	Fn      string
-	Pos     string
-	Src     string
-	NAssume int // number of assumptions visible
-	PC      *Term
-	Goal    *Term
-	Note    string
+	Confirmed int // thorough tier: solvers that gave the same definitive answer
+	Name      string
+	Kind      string
+	Props     []string
+	Fn        string
+	Pos       string
+	Src       string
+	NAssume   int // number of assumptions visible
+	PC        *Term
+	Goal      *Term
+	Note      string
 	// results
 	Status  string // proved | failed | unknown | error
 	Solver  string
@@ -193,46 +194,46 @@ type Obligation struct {
 // ---------------------------------------------------------------- executor
 
 type Exec struct {
-	V             *Verifier
-	assumptions   []*Term
-	obls          []*Obligation
-	nameCount     map[string]int
-	curFn         *ssa.Function // top-level function being verified
-	curContract   *Contract
-	strict        bool // strict slicing (high <= len)
-	safetyProps   []string
-	writeLog      map[string]bool // heap components written (for havoc fail-safe)
-	frames        []*Frame
-	lastSpecState *State
-	lastPreserved [2]Value
+	V               *Verifier
+	assumptions     []*Term
+	obls            []*Obligation
+	nameCount       map[string]int
+	curFn           *ssa.Function // top-level function being verified
+	curContract     *Contract
+	strict          bool // strict slicing (high <= len)
+	safetyProps     []string
+	writeLog        map[string]bool // heap components written (for havoc fail-safe)
+	frames          []*Frame
+	lastSpecState   *State
+	lastPreserved   [2]Value
 	lastPreservedSt *State
-	topFrame *Frame
-	recActive     map[*ssa.Function]string
-	recDone       map[string]bool
-	recParams     []Value
-	globalAxioms  []*Term
-	curInstr      ssa.Instruction
+	topFrame        *Frame
+	recActive       map[*ssa.Function]string
+	recDone         map[string]bool
+	recParams       []Value
+	globalAxioms    []*Term
+	curInstr        ssa.Instruction
 }
 
 type Frame struct {
-	fn        *ssa.Function
-	vals      map[ssa.Value]Value
-	params    []Value // entry values
-	depth     int
-	spec      bool // evaluating specification code: no obligations
-	pcBase    *Term
-	contract  *Contract
-	entry     *State
-	top       bool
-	results   []retInfo
-	edgeConds map[*ssa.BasicBlock]map[*ssa.BasicBlock]*Term
-	freeVars  []Value
-	label     string // prefix for obligation labels when inlined
-	loopRecs  map[*loopInfo]*loopRec
-	curBlock  *ssa.BasicBlock
-	asserted  map[*Clause]bool
-	entryNext *Term // allocation counter when the function was entered
-	unrolling map[*ssa.BasicBlock]*[]incoming
+	fn              *ssa.Function
+	vals            map[ssa.Value]Value
+	params          []Value // entry values
+	depth           int
+	spec            bool // evaluating specification code: no obligations
+	pcBase          *Term
+	contract        *Contract
+	entry           *State
+	top             bool
+	results         []retInfo
+	edgeConds       map[*ssa.BasicBlock]map[*ssa.BasicBlock]*Term
+	freeVars        []Value
+	label           string // prefix for obligation labels when inlined
+	loopRecs        map[*loopInfo]*loopRec
+	curBlock        *ssa.BasicBlock
+	asserted        map[*Clause]bool
+	entryNext       *Term // allocation counter when the function was entered
+	unrolling       map[*ssa.BasicBlock]*[]incoming
 	modTargetsCache []modTarget
 	modTargetsDone  bool
 }
